@@ -1,6 +1,8 @@
 """C05 — box model arithmetic and normal-flow geometry.
 
 Correspondence sections (every call goes to the *real* WeasyPrint function, in-process):
+  regressions         corpus first: inputs of the repaired findings (function level, corpus documents through the
+                      verified checker, sibling distances around multi-column containers)
   collapse            block.collapse_margin
   percentage          percent.percentage
   box-sizing          percent.adjust_box_sizing                       (both axes)
@@ -8,11 +10,16 @@ Correspondence sections (every call goes to the *real* WeasyPrint function, in-p
   width               block.block_level_width(.without_min_max)       (8 auto patterns x ltr/rtl x box/tuple cb)
   width-minmax        block.block_level_width                         (decorated: handle_min_max_width)
   page                page.page_width_or_height, page_width, page_height (handle_min_max_height)
-  wrappers            min_max.handle_min_max_width / _height around a function that does nothing
+  wrappers            min_max.handle_min_max_width / _height around a function that does nothing, around one that
+                      moves the box, and on a box without position_x
   stacking            one-page block/paragraph documents biased to margin collapsing, laid out by the real pipeline,
                       against the pagination model (position_y, margins, heights of every box, y of every line)
+  translation         metamorphic pair: wide-grammar documents rendered twice, the page area moved by (dx, dy): every box
+                      of every page moves by exactly (dx, dy) (verified comparator Model/UsedShift.lean)
   documents           random trees of block divs rendered with harness/docs.py; every block box's used
                       values and position_x against the model applied top-down
+  documents-full      the same documents: position_y and used height too, against the composition of the block-tree
+                      model with the pagination model (Model/BlockTreeV.lean)
 """
 import collections
 from fractions import Fraction as F
@@ -255,6 +262,56 @@ def run_width(cmd, cb, b):
     return docs.outcome(call)
 
 
+def run_shift(d, b):
+    """`handle_min_max_width` around a function that moves the box (`box.position_x += d`), as
+    `block_level_width` does in an rtl containing block."""
+    min_max = mods()[3]
+
+    def call():
+        box = hbox_real(b)
+
+        def shift(box_):
+            box_.position_x += d
+        min_max.handle_min_max_width(shift)(box)
+        return show_h(box)
+    return docs.outcome(call)
+
+
+def run_nox(b):
+    """`handle_min_max_width` around a function that does nothing, on a box that has no `position_x` yet."""
+    min_max = mods()[3]
+
+    def call():
+        box = hbox_real(b)
+        del box.position_x
+        min_max.handle_min_max_width(lambda box_: None)(box)
+        x = atom(box.position_x) if hasattr(box, 'position_x') else 'absent'
+        return f'ml={atom(box.margin_left)} mr={atom(box.margin_right)} w={atom(box.width)} x={x}'
+    return docs.outcome(call)
+
+
+def clause_shift(cmd, d, b, out):
+    """(c)(f) around a wrapped function that moves the box by `d` on every call: min/max hold and the box has
+    moved by `d` exactly once, however many passes the wrapper ran (`idwn`: no position at all)."""
+    if out.startswith('err:'):
+        return None if b['w'] == 'auto' else f'{cmd} raised {out}'
+    r = dict(item.split('=') for item in out.split())
+    w = dec(r['w'])
+    if w == 'auto':
+        return None
+    if w < b['min']:
+        return f'{cmd}: used size {w} < min {b["min"]}'
+    if b['min'] <= b['max'] and w > b['max']:
+        return f'{cmd}: used size {w} > max {b["max"]} (min {b["min"]})'
+    if cmd == 'idwn':
+        return None if r['x'] == 'absent' else f'idwn: the wrapper created position_x = {r["x"]} on a box without one'
+    if dec(r['x']) != b['x'] + d:
+        return (f'shw: the wrapped function moves the box by {d} per call; after the wrapper the box is at '
+                f'{r["x"]}, started at {b["x"]}: moved {dec(r["x"]) - b["x"]} (one shift per pass of the min/max '
+                f'wrapper instead of one in all)')
+    return None
+
+
 def gen_abox(rng, adversarial, cbw):
     """Structured: pick the auto pattern, then sizes around the containing block width."""
     pattern = rng.randrange(8)
@@ -310,7 +367,7 @@ EXPECTED_TAGS = {
     'resolve': ['page', 'block', 'cbh-auto', 'cbh-fixed', 'content-box', 'border-box', 'padding-box'],
     'box-sizing': ['content-box', 'border-box', 'padding-box', 'width', 'height'],
     'page': ['pwh', 'pwv', 'pw', 'ph'],
-    'wrappers': ['idw', 'idh'],
+    'wrappers': ['idw', 'idh', 'shw', 'idwn', 'shw:pass1', 'shw:pass2', 'shw:pass3'],
     'shrink-to-fit': ['float', 'inline-block', 'w-auto', 'w-fixed', 'max', 'no-max', 'min', 'no-min'],
     'translate': ['ignore', 'all', 'zero', 'move'],
     'radii': ['removed', 'kept', 'px', 'pct', 'unit'],
@@ -423,7 +480,7 @@ def clause_width(cmd, cb, b, out):
     if ml + pb + w + mr != cbw:
         return (f'{cmd}: reference solution does not fill the containing block', None)   # cannot happen
     if r['x'] + r['ml'] != b['x'] + ml:
-        known = 'rtl-minmax-shift-accumulates' if (rtl and clamped) else None
+        known = None        # (was rtl-minmax-shift-accumulates until /repo 165e254)
         return (f'{cmd}: border box starts at {r["x"] + r["ml"]} (position_x {r["x"]} + margin-left {r["ml"]}); '
                 f'CSS 10.3.3 puts it at {b["x"] + ml} in a {"rtl" if rtl else "ltr"} containing block of width '
                 f'{cbw} starting at {b["x"]}', known)
@@ -959,17 +1016,7 @@ def clause_shrink(case, out):
     if (r['ml'], r['mr']) != (ml, mr):
         return (f'{case["kind"]}: used margins {r["ml"]} / {r["mr"]}, expected {ml} / {mr}', None)
     if r['w'] != w:
-        known = None
-        if case['kind'] == 'float':
-            # the two known deviations of floats, recognised by their exact (wrong) value
-            if b['w'] != 'auto' and r['w'] == b['w']:
-                known = 'float-explicit-width-ignores-min-max'
-            elif b['w'] == 'auto':
-                documented = min(max(min_c, case['cbw']), max_c)
-                documented = b['max'] if documented > b['max'] else documented
-                documented = b['min'] if documented < b['min'] else documented
-                if r['w'] == documented:
-                    known = 'float-shrink-to-fit-ignores-own-extras'
+        known = None        # floats: two known deviations until /repo 802b9d8, 8719f13
         return (f'{case["kind"]} in a {case["cbw"]}px containing block, own margins+borders+paddings '
                 f'{case["cbw"] - available}, min-content {min_c}, max-content {max_c}, width {b["w"]}, min-width '
                 f'{b["min"]}, max-width {b["max"]}: used width {r["w"]}, CSS 10.3.5/10.4 gives {w}', known)
@@ -1184,20 +1231,33 @@ def geo_of(box, det):
     return '(' + ' '.join([fx(v) for v in vals] + [fx(box.height) if det else 'auto']) + ')'
 
 
-def real_geometry(doc):
-    """Render and read every block box, preorder, in the model's output format."""
+def vgeo_of(box):
+    """Full geometry of a box in the format of the `docv` command (Model/BlockTreeV.lean)."""
+    vals = [box.position_x, box.margin_left, box.margin_right, box.width, box.padding_left, box.padding_right,
+            box.border_left_width, box.border_right_width, box.margin_top, box.margin_bottom, box.padding_top,
+            box.padding_bottom, box.border_top_width, box.border_bottom_width, box.position_y, box.height]
+    return '(' + ' '.join(fx(v) for v in vals) + ')'
+
+
+def real_geometry(doc, full=None):
+    """Render and read every block box, preorder, in the model's output format (`full`: a list that receives
+    the full geometry of the same boxes, position_y and used height included)."""
     boxes = mods()[1]
     document = docs.render(doc_html(doc))
     if len(document.pages) != 1:
         return f'pages={len(document.pages)}'
     page_box = document.pages[0]._page_box
     out = [geo_of(page_box, True)]
+    if full is not None:
+        full.append(vgeo_of(page_box))
     blocks = []
 
     def walk(box, node, parent_det):
         st, kids = node
         det = height_determinate(st, parent_det)
         out.append(geo_of(box, det))
+        if full is not None:
+            full.append(vgeo_of(box))
         blocks.append((box, st))
         real_kids = [c for c in box.children if isinstance(c, boxes.BlockBox)]
         if len(real_kids) != len(kids):
@@ -1208,8 +1268,107 @@ def real_geometry(doc):
     return ' '.join(out), page_box, blocks
 
 
-def doc_line(doc):
-    return sx.line('doc', doc['w'], doc['h'], nstyle_wire(doc['page']), tree_wire(doc['root']))
+def doc_line(doc, cmd='doc'):
+    return sx.line(cmd, doc['w'], doc['h'], nstyle_wire(doc['page']), tree_wire(doc['root']))
+
+
+def _px(value):
+    """A computed length as a number, None when it is a percentage or auto."""
+    if value == 'auto' or value.unit != 'px':
+        return None
+    return value.value
+
+
+def stacking_oracle(root):
+    """Clauses (a)(g)(h) on real laid-out block boxes whose children are all blocks (one page), from used values
+    and computed styles: CSS 2.1 8.3.1 as in `clause_stacking`.  Between two consecutive children that do not
+    collapse through, the border boxes are (largest positive + most negative) of all the margins adjoining in
+    between apart; a parent without top border/padding shares its top border edge with its first such child; an
+    auto-height parent without bottom border/padding ends at its last child's bottom border edge.  Boxes whose
+    height / min-height / max-height is a percentage are left out (what they resolve to is clause (d))."""
+    boxes = mods()[1]
+
+    def geo(b):
+        top = F(b.position_y) + F(b.margin_top)
+        return {'top': top, 'bottom': top + F(b.border_height()), 'content_top': F(b.content_box_y())}
+
+    def facts(b):
+        """-> (through, top_own, bottom_own, sure)"""
+        h, mn, mx = b.style['height'], _px(b.style['min_height']), _px(b.style['max_height'])
+        sure = (h == 'auto' or _px(h) is not None) and (b.style['min_height'] == 'auto' or mn is not None) \
+            and mx is not None
+        hp = 'auto' if h == 'auto' else _px(h)
+        if b.style['box_sizing'] != 'content-box' and hp not in ('auto', 0, None):
+            hp = F(b.height) if b.height != 'auto' else hp          # what box-sizing left of it
+        open_top = b.border_top_width == 0 and b.padding_top == 0
+        open_bottom = b.border_bottom_width == 0 and b.padding_bottom == 0
+        min_zero = b.style['min_height'] == 'auto' or (b.min_height == 0)
+        kids = [c for c in b.children if isinstance(c, boxes.BlockBox)]
+        if not kids:
+            through = open_top and open_bottom and min_zero and hp in ('auto', 0)
+            return through, not through, not through, sure
+        return False, not open_top, (not open_bottom) or hp != 'auto', sure
+
+    def check(b, is_root):
+        kids = [c for c in b.children if isinstance(c, boxes.BlockBox)]
+        if len(kids) != len(b.children):
+            return None
+        if min(F(b.height), F(b.width)) < 0:
+            return f'<{b.element_tag}> has a negative size ({b.width} x {b.height})'
+        g = geo(b)
+        open_top = b.border_top_width == 0 and b.padding_top == 0
+        open_bottom = b.border_bottom_width == 0 and b.padding_bottom == 0
+        prev, between, first_seen, last_solid, all_sure = None, [], False, None, True
+        for k in kids:
+            through, top_own, bottom_own, sure = facts(k)
+            if not sure:
+                prev, between, first_seen, all_sure = None, [], True, False
+                continue
+            if through:
+                between += [F(k.margin_top), F(k.margin_bottom)]
+                continue
+            kg = geo(k)
+            if prev is not None and top_own:
+                margins = [F(prev[1].margin_bottom), *between, F(k.margin_top)]
+                want, got = _collapse(margins), kg['top'] - prev[0]['bottom']
+                if got != want:
+                    return (f'two consecutive children of <{b.element_tag}> at y={g["top"]}: the adjoining margins '
+                            f'{[str(m) for m in margins]} collapse to {want} (largest positive + most negative), but '
+                            f'the border boxes are {got} apart (bottom {prev[0]["bottom"]}, top {kg["top"]})')
+            elif not first_seen and top_own and not is_root and open_top and kg['top'] != g['top']:
+                return (f'<{b.element_tag}> has no top border/padding, so its top margin collapses with its first '
+                        f'child: both top border edges must coincide, got {g["top"]} and {kg["top"]}')
+            prev = (kg, k) if bottom_own else None
+            last_solid = (kg, k) if (top_own and bottom_own) else None
+            between, first_seen = [], True
+        _, _, _, sure = facts(b)
+        if (last_solid is not None and not between and all_sure and sure and not is_root and open_bottom and
+                b.style['height'] == 'auto' and b.min_height == 0 and b.max_height == INF and
+                kids[-1] is last_solid[1] and g['bottom'] != max(last_solid[0]['bottom'], g['content_top'])):
+            return (f'<{b.element_tag}> (auto height, no bottom border/padding): its bottom border edge '
+                    f'{g["bottom"]} must be that of its last child, {last_solid[0]["bottom"]}')
+        for k in kids:
+            r = check(k, False)
+            if r:
+                return r
+        return None
+    return check(root, True)
+
+
+def doc_oracle_v(doc):
+    """Vertical clauses on a rendered `documents` case."""
+    try:
+        res = real_geometry(doc)
+    except Exception as exc:  # noqa: BLE001
+        return f'render raised {type(exc).__name__}: {exc}'
+    if isinstance(res, str):
+        return None
+    _, page_box, _ = res
+    root = page_box.children[0]
+    if F(root.position_y) != F(page_box.content_box_y()):
+        return (f'the root element\'s margin box starts at {root.position_y}, not at the top of the page area '
+                f'{page_box.content_box_y()}')
+    return stacking_oracle(root)
 
 
 def doc_meta(doc):
@@ -1302,7 +1461,7 @@ def doc_oracle(doc):
             return (f'{tag} used width {box.width}; CSS 10.3.3/10.4 with containing block {cbw}, box-sizing '
                     f'{st["box_sizing"]}, min {mn}, max {mx} gives {w}', None)
         if not close(box.position_x + box.margin_left, pcx + ml):
-            known = 'rtl-minmax-shift-accumulates' if (rtl and clamped) else None
+            known = None    # (was rtl-minmax-shift-accumulates until /repo 165e254)
             return (f'{tag} border box starts at {box.position_x + box.margin_left}; CSS 10.3.3 puts it at '
                     f'{pcx + ml} ({"rtl" if rtl else "ltr"} containing block [{pcx}, {pcx + cbw}])', known)
         # (c) heights
@@ -1323,16 +1482,100 @@ def doc_oracle(doc):
 
 # --------------------------------------------------------------------------------------------------
 
-def finding_columns_margin_top():
-    from harness import pm_col_corr
-    return pm_col_corr.replay_witness('columns_margin_top_ignored')
+# --------------------------------------------------------------------------------------------------
+# regressions: the inputs of the repaired findings (`fixed:` lines), run first in every check
+
+SIBLING_HEAD = ('<style>@page{size:200px 400px;margin:0}html,body{margin:0}body{font-family:weasyprint;font-size:10px;'
+                'line-height:10px}p{margin:0}</style>')
+# (name, html after the head, margins that adjoin between the border boxes of #a and #b)
+SIBLING_DOCS = [
+    ('columns-margin-top', '<p id=a>a</p><div id=b style="columns:2;margin-top:10px">x y z</div>', [0, 10]),
+    ('columns-margin-top-collapses', '<p id=a style="margin-bottom:15px">a</p>'
+     '<div id=b style="columns:2;margin-top:10px">x y z</div>', [15, 10]),
+    ('columns-negative-margin-top', '<p id=a style="margin-bottom:15px">a</p>'
+     '<div id=b style="column-count:3;margin-top:-5px">x y z</div>', [15, -5]),
+    ('columns-through-empty', '<p id=a style="margin-bottom:4px">a</p><div style="margin:12px 0 7px"></div>'
+     '<div id=b style="column-width:50px;margin-top:9px">x y z</div>', [4, 12, 7, 9]),
+    ('plain-block', '<p id=a style="margin-bottom:15px">a</p><div id=b style="margin-top:10px">x y z</div>',
+     [15, 10]),
+]
+
+
+def sibling_distance(html):
+    """Distance from the bottom border edge of #a to the top border edge of #b."""
+    document = docs.render(SIBLING_HEAD + html)
+    found = {}
+    for box in document.pages[0]._page_box.descendants():
+        ident = box.element.get('id') if getattr(box, 'element', None) is not None else None
+        if ident in ('a', 'b') and ident not in found and hasattr(box, 'margin_top'):
+            found[ident] = box
+    a, b = found['a'], found['b']
+    return F(b.position_y + b.margin_top) - F(a.position_y + a.margin_top + a.border_height())
+
+
+def used_doc_case(html, page_index=0):
+    """(line, meta) of one page of a document for the verified checker of used values."""
+    from harness import c05_used
+    document = docs.render(html)
+    line = c05_used.page_lines(document)[page_index][0]
+    info = c05_used.page_info(document.pages[page_index])
+    return line, dict({'as': 'used-values', 'html': html, 'page_index': page_index, 'rtl': 'direction:rtl' in html,
+                       'features': []}, **info)
+
+
+def regression_cases():
+    """-> [(name, line, impl, meta)]: corpus/C05 inputs of the repaired findings and their function-level
+    counterparts, each compared with the model (and judged by the clause it once violated)."""
+    import json
+    from vlib.paths import CORPUS
+    out = []
+    rtl_clamped = {'ml': F(0), 'mr': F(0), 'pl': F(0), 'pr': F(0), 'bl': F(0), 'br': F(0), 'w': F(200), 'min': F(0),
+                   'max': F(50), 'x': F(0), 'col': False}
+    cb = ['box', F(100), 'rtl']
+    for name, b in (('rtl-minmax-shift-accumulates', rtl_clamped),
+                    ('rtl-minmax-three-passes', dict(rtl_clamped, max=F(20), min=F(50))),
+                    ('rtl-minmax-min-only', dict(rtl_clamped, w=F(20), max=INF, min=F(150)))):
+        out.append((name, sx.line('blwmm', cb, abox_wire(b)), run_width('blwmm', cb, b),
+                    {'as': 'width-minmax', 'cmd': 'blwmm', 'cb': [cb[0], atom(cb[1]), cb[2]], 'b': abox_meta(b)}))
+    for name, case in (('float-explicit-width-ignores-max', _float_case(w=F(80), max=F(50))),
+                       ('float-explicit-width-ignores-min', _float_case(w=F(20), min=F(50))),
+                       ('float-shrink-to-fit-ignores-own-extras', _float_case(pl=F(10), pr=F(10))),
+                       ('float-shrink-to-fit-margins-borders', _float_case(ml=F(5), mr=F(7), bl=F(2), br=F(3)))):
+        out.append((name, shrink_line(case), run_shrink(case)[0], dict(shrink_meta(case), **{'as': 'shrink-to-fit'})))
+    for stem in ('rtl_minmax_shift_accumulates', 'rtl_relayout_shift_accumulates',
+                 'float_explicit_width_ignores_min_max', 'float_shrink_to_fit_ignores_own_extras'):
+        html = json.loads((CORPUS / 'C05' / f'{stem}.json').read_text())['html']
+        try:
+            line, meta = used_doc_case(html)
+            out.append((stem, line, 'ok', meta))
+        except Exception as exc:  # noqa: BLE001
+            out.append((stem, sx.line('collapse', []), f'err:{type(exc).__name__}', {'as': 'render', 'html': html}))
+    for name, html, margins in SIBLING_DOCS:
+        ms = [F(m) for m in margins]
+        impl = docs.outcome(lambda: atom(sibling_distance(html)))
+        out.append((name, sx.line('collapse', ms), impl,
+                    {'as': 'sibling-distance', 'name': name, 'html': SIBLING_HEAD + html, 'ms': [atom(m) for m in ms]}))
+    return out
+
+
+def clause_sibling(meta, out):
+    """(h) between two siblings: the border boxes are (largest positive + most negative) of the adjoining
+    margins apart — also when the second one is a multi-column container."""
+    if out.startswith('err:'):
+        return f'{meta["name"]}: layout raised {out}'
+    ms = [F(m) for m in meta['ms']]
+    want = _collapse(ms)
+    if F(out) != want:
+        return (f'{meta["name"]}: the margins {[str(m) for m in ms]} adjoin between #a and #b and collapse to {want}, '
+                f'but the border boxes are {out} apart')
+    return None
 
 
 class C05(PropCheck):
     id = 'C05'
     extractors = ()
     modules = ('WpModel.Props.C05', 'WpModel.Props.C05Pm', 'WpModel.Props.C05Check', 'WpModel.Props.C05Refine',
-               'WpModel.Props.C05Shrink', 'WpModel.Witness.C05', 'WpModel.Witness.C05Pm', 'WpModel.Witness.C05Shrink')
+               'WpModel.Props.C05Shrink', 'WpModel.Props.C05Tree', 'WpModel.Props.C05Shift', 'WpModel.Witness.C05', 'WpModel.Witness.C05Pm', 'WpModel.Witness.C05Shrink')
     trusted_base = (
         'modelled, not verified: collapse_margin, percentage, resolve_percentages, adjust_box_sizing, '
         'handle_min_max_width/height, block_level_width, page_width_or_height are hand transcriptions '
@@ -1344,7 +1587,9 @@ class C05(PropCheck):
     assumptions = (
         'computed padding/border values are never auto; only max-* can be infinite (computed value of none)',
         'the page box inherits direction and font-size from the root element',
-        'vertical stacking (clause g) and margin adjoining across boxes are covered by the pagination model, not here',
+        'vertical stacking (clause g) and margin adjoining across boxes are the pagination model\'s; the block-tree '
+        'model hands it the used values (Model/BlockTreeV.lean), the composition is compared with rendered documents '
+        '(section documents-full)',
     )
 
     # ---------------------------------------------------------------------------------------------
@@ -1352,6 +1597,15 @@ class C05(PropCheck):
         docs.quiet()
         rng = run.rng
         _, boxes, block, min_max, page, percent = mods()
+
+        sec = run.section('regressions', 'corpus first: the inputs of the repaired findings (fixed: lines of '
+                          'known_findings.txt; corpus/C05/*.json and their function-level forms): decorated '
+                          'block_level_width in rtl with 2 and 3 passes, float widths with explicit width + min/max '
+                          'and with own paddings / margins / borders, the corpus documents through the verified '
+                          'checker of used values, sibling distances before a multi-column container against '
+                          'collapse_margin; non-trivial = always')
+        for name, line, impl, meta in regression_cases():
+            sec.add(line, impl, meta=meta, tags=[meta['as'], name])
 
         sec = run.section('collapse', 'block.collapse_margin on lists of 0-9 rationals (duplicates, zeros, signs, '
                           'huge); non-trivial = at least one positive and one negative margin')
@@ -1548,14 +1802,29 @@ class C05(PropCheck):
                         nontrivial='auto' in (b['ml'], b['mr'], b['w']), tags=[cmd])
 
         sec = run.section('wrappers', 'min_max.handle_min_max_width / handle_min_max_height around a function that '
-                          'does nothing (auto size -> TypeError); non-trivial = a constraint fired')
+                          'does nothing (auto size -> TypeError), handle_min_max_width around a function that moves '
+                          'the box (position_x += d: one shift in all, whatever the number of passes) and on a box '
+                          'without position_x; non-trivial = a constraint fired')
         for i in range(run.n(2000, 30000)):
             b = gen_abox(rng, False, rng.choice([F(100), F(200)]))
             b['col'] = False
+            fired = b['w'] != 'auto' and (b['w'] > b['max'] or b['w'] < b['min'])
             for cmd in ('idw', 'idh'):
                 out = run_width(cmd, None, b)
                 sec.add(sx.line(cmd, abox_wire(b)), out, meta={'cmd': cmd, 'cb': None, 'b': abox_meta(b)},
-                        nontrivial=b['w'] != 'auto' and (b['w'] > b['max'] or b['w'] < b['min']), tags=[cmd])
+                        nontrivial=fired, tags=[cmd])
+            # the position_x bookkeeping of handle_min_max_width: a wrapped function that moves the box, and a
+            # box that has no position_x yet
+            d = rng.choice([small(rng), -small(rng), F(1)])
+            passes = 1
+            if b['w'] != 'auto':
+                w2 = b['max'] if b['w'] > b['max'] else b['w']
+                passes += (b['w'] > b['max']) + (w2 < b['min'])
+            sec.add(sx.line('shw', d, abox_wire(b)), run_shift(d, b),
+                    meta={'cmd': 'shw', 'd': atom(d), 'cb': None, 'b': abox_meta(b)}, nontrivial=fired,
+                    tags=['shw', f'shw:pass{passes}'])
+            sec.add(sx.line('idwn', abox_wire(b)), run_nox(b), meta={'cmd': 'idwn', 'cb': None, 'b': abox_meta(b)},
+                    nontrivial=fired, tags=['idwn'])
 
         sec = run.section('box-geometry', 'the twelve geometry helpers of boxes.Box (padding/border/margin width and '
                           'height, content/padding/border box x and y) on a real BlockBox; non-trivial = always')
@@ -1612,23 +1881,60 @@ class C05(PropCheck):
                 sec.add(line, 'ok', meta=meta, nontrivial=stats['flow'] >= 3, tags=tags)
         run.extra['used_values_boxes'] = dict(used_stats)
 
+        sec = run.section('translation', 'metamorphic pair "uniform translation" on wide-grammar documents '
+                          '(harness/widegen.py, rtl mixed in; one in three is a small document of position-sensitive '
+                          'constructs: empty / zero-height floats, clearance, absolute / fixed / relative boxes with '
+                          'auto and explicit offsets): each document is rendered twice, the second time with '
+                          'the page area moved by (dx, dy) (page size and left / top page margins grown); per page, '
+                          'the two trees of used values go to the verified comparator (Model/UsedShift.lean: same '
+                          'shape, every box moved by exactly (dx, dy), sizes / margins / paddings / borders kept); '
+                          'the implementation side is the constant claim "ok"; non-trivial = a page with at least 3 '
+                          'boxes')
+        shift_stats = collections.Counter()
+        for k in range(run.n(60, 900)):
+            for line, impl, meta, tags, stats in c05_used.shift_cases(rng, adversarial=(k % 4 == 3),
+                                                                     probe=(k % 3 == 2)):
+                if line is None:
+                    sec.tags['render-error (C02)'] += 1
+                    continue
+                shift_stats.update(stats)
+                sec.add(line, impl, meta=meta, nontrivial=sum(stats.values()) >= 3, tags=tags)
+        run.extra['translation_boxes'] = dict(shift_stats)
+
         sec = run.section('documents', 'random trees of block divs (html > body > divs, depth <= 5) with margin / '
                           'padding / border / width / height / min / max / box-sizing from {auto, 0, px, %, em}, '
                           'ltr and rtl, page box with margins/padding/border/width: every box\'s position_x, '
                           'horizontal and vertical used values, final height when determinate; non-trivial = at '
                           'least 3 blocks below body')
+        sec_v = run.section('documents-full', 'the same documents, full geometry: position_x, position_y, used '
+                            'margins / paddings / borders, width and used height of every box against the '
+                            'composition of the block-tree model (horizontal, used values) with the pagination '
+                            'model (vertical: stacking, margin collapsing, auto heights) — Model/BlockTreeV.lean; '
+                            'non-trivial = at least 3 blocks below body, one of them with a non-zero vertical '
+                            'margin')
         n_boxes = 0
         for i in range(run.n(1200, 20000)):
             doc = gen_doc(rng)
+            full = []
             try:
-                res = real_geometry(doc)
+                res = real_geometry(doc, full)
                 out = res if isinstance(res, str) else res[0]
                 count = 0 if isinstance(res, str) else len(res[2])
+                out_v = res if isinstance(res, str) else ' '.join(full)
+                margins = 0 if isinstance(res, str) else sum(
+                    1 for b, _ in res[2] if b.margin_top != 0 or b.margin_bottom != 0)
+                negative = (not isinstance(res, str)) and any(
+                    b.margin_top < 0 or b.margin_bottom < 0 for b, _ in res[2])
             except Exception as exc:  # noqa: BLE001
-                out, count = f'err:{type(exc).__name__}', 0
+                out, count, margins, negative = f'err:{type(exc).__name__}', 0, 0, False
+                out_v = out
             n_boxes += count
             sec.add(doc_line(doc), out, meta={'doc': doc_meta(doc)}, nontrivial=count >= 5,
                     tags=[f'blocks{min(count // 4 * 4, 24)}', doc['root'][0]['dir']])
+            sec_v.add(doc_line(doc, 'docv'), out_v, meta={'doc': doc_meta(doc)},
+                      nontrivial=count >= 5 and margins > 0,
+                      tags=[f'blocks{min(count // 4 * 4, 24)}', f'margins{min(margins, 6)}'] +
+                      (['negative-margin'] if negative else []))
         run.extra['document_boxes_compared'] = n_boxes
         run.extra['branches_never_hit'] = {
             sec_.name: missing for sec_ in run.sections
@@ -1636,14 +1942,23 @@ class C05(PropCheck):
 
     # ---------------------------------------------------------------------------------------------
     def classify(self, d):
-        if d['section'] == 'used-values':
+        if (d.get('meta') or {}).get('as', d['section']) == 'used-values':
             from harness import c05_used
             return c05_used.classify(d['meta'], d['line'], d['model'])
         return None
 
     def judge(self, d):
         meta = d.get('meta') or {}
-        section, impl = d['section'], d['impl']
+        section, impl = meta.get('as', d['section']), d['impl']
+        if section == 'translation':
+            from harness import c05_used
+            if impl != 'ok' or d['model'].startswith('bad '):
+                return f'page {meta["page_index"]}: ' + c05_used.explain_shift(d['line'], impl, d['model'])
+            return None
+        if section == 'sibling-distance':
+            return clause_sibling(meta, impl)
+        if section == 'render':
+            return f'rendering a corpus document raised {impl}'
         if section == 'used-values':
             from harness import c05_used
             if d['model'].startswith('bad '):
@@ -1667,6 +1982,8 @@ class C05(PropCheck):
             cb = meta['cb']
             cb = None if cb is None else dec(cb) if isinstance(cb, str) else [cb[0], dec(cb[1])] + cb[2:]
             cmd = meta['cmd']
+            if cmd in ('shw', 'idwn'):
+                return clause_shift(cmd, F(meta.get('d', 0)), b, impl)
             r = clause_width({'pwv': 'pwh'}.get(cmd, cmd), cb, b, impl)
             return r[0] if r and r[1] is None else None
         if section == 'shrink-to-fit':
@@ -1689,6 +2006,11 @@ class C05(PropCheck):
             r = doc_oracle(doc_from_meta(meta['doc']))
             if r and r[1] is None:
                 return r[0]
+        if section == 'documents-full':
+            r = doc_oracle(doc_from_meta(meta['doc']))
+            if r and r[1] is None:
+                return r[0]
+            return doc_oracle_v(doc_from_meta(meta['doc']))
         return None
 
     # ---------------------------------------------------------------------------------------------
@@ -1707,6 +2029,11 @@ class C05(PropCheck):
             found.append({'what': what, 'input': inp, 'signature': sig, 'finding_id': finding_id})
             return len(found) >= 3
 
+        for fid in REGRESSION_PROBES:
+            run.search_stats['evaluations'] += 1
+            what = probe_regression(fid)
+            if what and add(what, {'section': 'regression-probe', 'meta': {'id': fid}}, f'regression/{fid}'):
+                return found
         for i in range(3000):
             run.search_stats['evaluations'] += 1
             ms = [rat(rng) for _ in range(rng.choice([0, 1, 2, 3, 5]))]
@@ -1768,26 +2095,45 @@ class C05(PropCheck):
             if r and add(r[0], {'section': 'documents', 'html': doc_html(doc), 'meta': {'doc': doc_meta(doc)}},
                          f'doc/{r[0][:40]}', r[1]):
                 return found
+            what = None if r else doc_oracle_v(doc)
+            if what and add(what, {'section': 'documents-full', 'html': doc_html(doc),
+                                   'meta': {'doc': doc_meta(doc)}}, f'docv/{what[:40]}'):
+                return found
         return found
 
     # ---------------------------------------------------------------------------------------------
     def finding_replays(self):
         return {'stored-margin-right': finding_stored_margin_right,
                 'empty-block-negative-margin-height': finding_empty_block_height,
-                'rtl-minmax-shift-accumulates': finding_rtl_accumulates,
-                'rtl-relayout-shift-accumulates': finding_rtl_relayout,
                 'zero-percent-height-auto-cb': finding_zero_percent,
                 'first-line-overflow-margin-hack': finding_first_line_hack,
                 'table-row-group-negative-height': finding_table_row_group,
-                'float-explicit-width-ignores-min-max': finding_float_minmax,
-                'float-shrink-to-fit-ignores-own-extras': finding_float_extras,
-                'empty-fragment-below-page-bottom': finding_empty_fragment,
-                'columns-margin-top-ignored': finding_columns_margin_top}
+                'empty-fragment-below-page-bottom': finding_empty_fragment}
 
     def replay(self, data):
         inp = data.get('input', {})
         meta = inp.get('meta') or {}
-        section = inp.get('section')
+        section = meta.get('as') or inp.get('section')
+        if section == 'regression-probe':
+            return probe_regression(meta['id'])
+        if section == 'translation':
+            from harness import c05_used
+            from vlib import lean
+            docs.quiet()
+            pages = c05_used.shift_lines(meta['html'], meta['dx'], meta['dy'])
+            if isinstance(pages, str):
+                return c05_used.explain_shift(sx.line('shifted', 0, meta['dx'], meta['dy'], [], []), pages, '')
+            if meta['page_index'] >= len(pages):
+                return None
+            line = pages[meta['page_index']][0]
+            out = lean.run_driver(self.driver, [line])[0]
+            if out.startswith('bad '):
+                return f'page {meta["page_index"]}: ' + c05_used.explain_shift(line, 'ok', out)
+            return None
+        if section == 'sibling-distance':
+            docs.quiet()
+            html = meta['html'][len(SIBLING_HEAD):]
+            return clause_sibling(meta, docs.outcome(lambda: atom(sibling_distance(html))))
         if section == 'used-values':
             from harness import c05_used
             from vlib import lean
@@ -1837,6 +2183,9 @@ class C05(PropCheck):
             cb = meta['cb']
             cb = None if cb is None else dec(cb) if isinstance(cb, str) else [cb[0], dec(cb[1])] + cb[2:]
             cmd = meta['cmd']
+            if cmd in ('shw', 'idwn'):
+                d = F(meta.get('d', 0))
+                return clause_shift(cmd, d, b, run_shift(d, b) if cmd == 'shw' else run_nox(b))
             r = clause_width({'pwv': 'pwh'}.get(cmd, cmd), cb, b, run_width(cmd, cb, b))
             return r[0] if r else None
         if section == 'shrink-to-fit':
@@ -1862,6 +2211,9 @@ class C05(PropCheck):
         if section == 'documents':
             r = doc_oracle(doc_from_meta(meta['doc']))
             return r[0] if r else None
+        if section == 'documents-full':
+            r = doc_oracle(doc_from_meta(meta['doc']))
+            return r[0] if r else doc_oracle_v(doc_from_meta(meta['doc']))
         return None
 
 
@@ -1889,7 +2241,8 @@ def finding_stored_margin_right():
 
 def finding_rtl_accumulates():
     """rtl containing block of 100px, child `width:200px; max-width:50px`: block_level_width runs twice (min/max
-    re-entry) and shifts position_x both times: the box ends at x = -50 instead of x = 50."""
+    re-entry); the box must end at x = 50 (it was -50 while position_x was shifted by both passes; repaired in
+    /repo 165e254)."""
     b = {'ml': F(0), 'mr': F(0), 'pl': F(0), 'pr': F(0), 'bl': F(0), 'br': F(0), 'w': F(200), 'min': F(0),
          'max': F(50), 'x': F(0), 'col': False}
     r = parse_show(run_width('blwmm', ['box', F(100), 'rtl'], b))
@@ -1905,9 +2258,9 @@ RELAYOUT_DOC = (
 
 def finding_rtl_relayout():
     """rtl parent of 100px; the child `width:50px; padding-bottom:20px` has two 20px children and its padding
-    crosses the page bottom: `_in_flow_layout` lays the child out a second time (block.py, border_page_overflow)
-    without resetting position_x, so block_level_width shifts it twice: x = 100 on the first page (outside its
-    containing block [0, 100]) instead of x = 50."""
+    crosses the page bottom: `_in_flow_layout` lays the child out a second time (block.py, border_page_overflow);
+    the fragment must stay at x = 50 (it was 100, outside its containing block [0, 100], while position_x was not
+    restored before the second layout; repaired in /repo 7b9d21e)."""
     docs.quiet()
     document = docs.render(RELAYOUT_DOC)
     for box in document.pages[0]._page_box.descendants():
@@ -1981,14 +2334,15 @@ def _float_case(**box):
 
 
 def finding_float_minmax():
-    """`float:left; width:80px; max-width:50px` stays 80px wide."""
+    """`float:left; width:80px; max-width:50px` must be 50px wide (it stayed 80px; repaired in /repo 802b9d8)."""
     docs.quiet()
     out, _ = run_shrink(_float_case(w=F(80), max=F(50)))
     return out.startswith('ml=') and parse_show(out)['w'] > 50
 
 
 def finding_float_extras():
-    """`float:left; padding:0 10px` with wrapping text in a 100px block: content box 100px, margin box 120px."""
+    """`float:left; padding:0 10px` with wrapping text in a 100px block must fit (content box 80px; it was 100px, margin
+    box 120px; repaired in /repo 8719f13)."""
     docs.quiet()
     out, _ = run_shrink(_float_case(pl=F(10), pr=F(10)))
     return out.startswith('ml=') and parse_show(out)['w'] + 20 > 100
@@ -2005,6 +2359,34 @@ def finding_empty_block_height():
     return False
 
 
+def regression_columns_margin_top():
+    """After a 10px paragraph a multi-column container with margin-top:10px has its border box 10px lower
+    (it was 0: its own margin was not in the list given to collapse_margin)."""
+    docs.quiet()
+    return sibling_distance(SIBLING_DOCS[0][1]) != 10
+
+
+# Direct probes of the repaired findings on the implementation (True = the defect is back), used by `search` to
+# report a regression with its concrete input even when the correspondence broke somewhere else.
+REGRESSION_PROBES = {
+    'rtl-minmax-shift-accumulates': finding_rtl_accumulates,
+    'rtl-relayout-shift-accumulates': finding_rtl_relayout,
+    'float-explicit-width-ignores-min-max': finding_float_minmax,
+    'float-shrink-to-fit-ignores-own-extras': finding_float_extras,
+    'columns-margin-top-ignored': regression_columns_margin_top,
+}
+
+
+def probe_regression(fid):
+    try:
+        back = REGRESSION_PROBES[fid]()
+    except Exception as exc:  # noqa: BLE001
+        return f'probe of the repaired finding {fid} raised {type(exc).__name__}: {exc}'
+    if back:
+        return (f'the repaired defect {fid} is back ({(REGRESSION_PROBES[fid].__doc__ or "").strip().splitlines()[0]})')
+    return None
+
+
 PROP = C05()
 
 MANIFEST = {
@@ -2016,7 +2398,10 @@ MANIFEST = {
                  'rendered documents (block trees ltr/rtl, floats / inline-blocks, the pagination model for vertical '
                  'stacking); a verified checker of the property statement (non-negative sizes, min/max, edges, width '
                  'equation, stacking, containment) with soundness and refinement theorems, run on every box of rendered '
-                 'wide-grammar documents',
+                 'wide-grammar documents; full geometry (x, y, width, height) of block trees by composing the block-tree '
+                 'model with the pagination model (refinement theorems C05Tree), compared box by box with rendered '
+                 'documents; the metamorphic pair "uniform translation" through a verified comparator (C05Shift) on '
+                 'wide-grammar and position-sensitive documents rendered twice',
     'text': 'Proved for all inputs on the model: the CSS 2.1 10.3.3 width equation for all 8 auto patterns in ltr and '
             'rtl unless over-constrained (then the geometry: start edge kept in ltr, end edge flush in rtl), min <= width '
             '(and width <= max when min <= max) after the min/max wrappers for any wrapped function that keeps a '
@@ -2027,7 +2412,7 @@ MANIFEST = {
             'and fill its width, shrink-to-fit widths lie between min- and max-content and inline-blocks fit their '
             'containing block. The executable checker of used values is sound (usedOk = true implies every clause '
             'for every box: sizes, min/max, edges, equation, no overlap of stacked children) and accepts every box the '
-            'block-tree model lays out in ltr (refinement, tolerance 0). Vertical stacking and margin adjoining '
+            'block-tree model lays out in ltr and rtl (refinement, tolerance 0). Vertical stacking and margin adjoining '
             'across boxes (clauses g, h) are the pagination model\'s theorems (Props/C05Pm), tied here by the stacking '
             'section (collapse-biased one-page documents).',
     'note': 'Trusted: Lean kernel, the hand transcription of the named functions (tied to /repo only through the '
@@ -2035,11 +2420,13 @@ MANIFEST = {
             'rendered documents with dyadic lengths); on the wide grammar (tables, flex, grid, columns, floats) the '
             'property is only checked (verified checker on sampled renders), not modelled. Known findings (each '
             'with a Lean witness, a replay and a corpus file): stored margin_right not recomputed (literal equation '
-            'false, geometry right); rtl position shift applied once per min/max re-entry and once per re-layout '
-            'after a page overflow; 0% heights are lengths in an auto-height containing block; floats ignore '
-            'min/max-width when width is specified and ignore their own padding/border/margins in shrink-to-fit; '
-            'the first-line-overflow margin hack leaves boxes below their lines (negative heights when fragmented); '
+            'false, geometry right); 0% heights are lengths in an auto-height containing block; the '
+            'first-line-overflow margin hack leaves boxes below their lines (negative heights when fragmented); '
             'an empty fragment below the page bottom gets a negative height; empty block with negative margin gets a '
-            'positive height. Inline-level boxes other than inline-blocks, absolute boxes, table and flex/grid '
-            'sizing are not covered here.',
+            'positive height; negative row-group height in fragmented tables. Repaired in /repo and now regression '
+            'cases (section regressions, Lean regression theorems, full-strength theorems edge_flush_minmax, '
+            'float_minmax, float_fits, layoutNode_accepted for ltr and rtl): the rtl position shift once per min/max '
+            're-entry and once per re-layout, floats ignoring min/max-width and their own extras, the ignored '
+            'margin-top of multi-column containers. Inline-level boxes other than inline-blocks, absolute boxes, '
+            'table and flex/grid sizing are not covered here.',
 }
